@@ -34,12 +34,20 @@ fn cleanup_shm() {
     for n in vcore::util::shm_entries_containing(&common::prefix_str()) {
         let _ = std::fs::remove_file(format!("/dev/shm/{n}"));
     }
+    // objects of workers of earlier runs that were killed in the middle of a case (watchdog)
+    for n in vcore::util::shm_entries_containing("c13v") {
+        let pid: String = n.trim_start_matches("c13v").chars().take_while(|c| c.is_ascii_digit()).collect();
+        if n.starts_with("c13v") && !pid.is_empty() && !std::path::Path::new(&format!("/proc/{pid}")).exists() {
+            let _ = std::fs::remove_file(format!("/dev/shm/{n}"));
+        }
+    }
 }
 
 fn body(ctx: &mut Ctx) {
     iceoryx2_log::set_log_level(iceoryx2_log::LogLevel::Fatal);
     sched::install();
     ctx.pin_to_one_cpu();
+    cleanup_shm();
     seq::seq_parts(ctx);
     let leftovers = vcore::util::shm_entries_containing(&common::prefix_str());
     if !leftovers.is_empty() && ctx.violation_count() == 0 {
